@@ -8,6 +8,8 @@
 (*        was handled by h at level l with its own attributes rec; err and     *)
 (*        attrs are what the line actually shows (severity, attribute ids in   *)
 (*        the order they appear in the message)                                *)
+(*   {"op":"relog", ...as log...}              a line of a record value that   *)
+(*        was handed to several Handle calls (no "once" requirement)           *)
 (*   {"op":"enabled","h":h,"lv":l,"res":0|1}   h.Enabled(l) returned res       *)
 (*   {"op":"cut"}                              forget the lines matched so far *)
 (* Lines are listed in output order, which is the order the records took the   *)
@@ -24,11 +26,12 @@ Bit(b) == IF b THEN 1 ELSE 0
 
 TInit == /\ thr = Trace[1].thr
          /\ attrs = << <<>> >> /\ parent = <<0>> /\ sl = <<NilSlice>> /\ heap = <<>>
+         /\ recs = <<>> /\ rheap = <<>> /\ item = [large |-> FALSE, bound |-> TRUE] /\ panics = 0
          /\ out = <<>> /\ ngroups = 0 /\ steps = 0
          /\ l = 1
 
 TNew == /\ Ev.op = "new" /\ l = 1 /\ Ev.thr = thr
-        /\ UNCHANGED <<thr, attrs, parent, sl, heap, out, ngroups>>
+        /\ UNCHANGED <<thr, attrs, parent, sl, heap, recs, rheap, item, panics, out, ngroups>>
 
 TDerive == /\ Ev.op = "derive"
            /\ Ev.new = NumH + 1
@@ -44,18 +47,25 @@ TLog == /\ Ev.op = "log"
         /\ LogRec(Ev.h, Ev.lv, Ev.rec)
         /\ LastLineIs(Ev.err, Ev.attrs)
 
+(* A record value several goroutines handled: one line per Handle call, all   *)
+(* alike for the same handler (the harness counts them).                       *)
+TRelog == /\ Ev.op = "relog"
+          /\ Ev.h \in Handlers
+          /\ LogRec(Ev.h, Ev.lv, Ev.rec)
+          /\ LastLineIs(Ev.err, Ev.attrs)
+
 TEnabled == /\ Ev.op = "enabled"
             /\ Ev.h \in Handlers
             /\ Ev.res = Bit(IsEnabled(Ev.lv))
-            /\ UNCHANGED <<thr, attrs, parent, sl, heap, out, ngroups>>
+            /\ UNCHANGED <<thr, attrs, parent, sl, heap, recs, rheap, item, panics, out, ngroups>>
 
 TCut == /\ Ev.op = "cut"
         /\ out' = <<>>
-        /\ UNCHANGED <<thr, attrs, parent, sl, heap, ngroups>>
+        /\ UNCHANGED <<thr, attrs, parent, sl, heap, recs, rheap, item, panics, ngroups>>
 
 TNext == /\ l <= Len(Trace)
          /\ l' = l + 1
-         /\ (TNew \/ TDerive \/ TLog \/ TEnabled \/ TCut)
+         /\ (TNew \/ TDerive \/ TLog \/ TRelog \/ TEnabled \/ TCut)
          /\ AttrsImmutable'
          /\ UNCHANGED steps
 TSpec == TInit /\ [][TNext]_tvars
